@@ -124,7 +124,20 @@ func Dial(addr string) (*Conn, error) {
 	return cn, nil
 }
 
-func (c *Conn) Close() { c.c.Close() }
+// Close resets the connection instead of closing it gracefully: thousands of
+// short connections per second would otherwise pile up in TIME_WAIT and
+// exhaust the ephemeral ports. Everything of interest has been read by then.
+func (c *Conn) Close() {
+	NoLinger(c.c)
+	c.c.Close()
+}
+
+// NoLinger makes the next Close of a TCP connection send RST.
+func NoLinger(c net.Conn) {
+	if tc, ok := c.(*net.TCPConn); ok {
+		tc.SetLinger(0)
+	}
+}
 
 // Do writes raw request bytes and reads one response.  method is needed to
 // know whether a body follows (HEAD).
